@@ -95,6 +95,36 @@ func (p c12) Gen(t *rapid.T, env *Env) (*Case, []*Out) {
 			break
 		}
 	}
+	// YAML plain scalars that a schema author did not mean: an unquoted null inside a type list (the YAML null value, not
+	// the string "null") next to a default spelled yes / off (YAML 1.1 booleans; strings for this decoder). Whatever is
+	// made of them must not depend on the order in which a decoded mapping is walked (seeded change s89).
+	if afs := argFiles(w, args); !stdin && len(afs) > 0 && rapid.IntRange(0, 5).Draw(t, "yamlplain") == 0 {
+		for _, f := range afs {
+			if !f.YAML || !f.RootObj {
+				continue
+			}
+			props, _ := f.Doc.Get("properties")
+			po, ok := props.(Obj)
+			if !ok {
+				continue
+			}
+			po = append(append(Obj{}, po...),
+				KV{f.Tag + "yn1", Obj{{"type", []any{"boolean", nil}}, {"default", RawJSON("yes")}}},
+				KV{f.Tag + "yn2", Obj{{"default", RawJSON("off")}, {"type", []any{nil, "boolean"}}, {"description", "plain scalars"}}},
+				KV{f.Tag + "yn3", Obj{{"type", []any{"string", nil}}, {"default", RawJSON("No")}}})
+			nf := *f
+			nf.Doc = append(Obj{}, f.Doc...).Set("properties", po)
+			cp := *w
+			cp.Files = append([]*SFile{}, w.Files...)
+			for i := range cp.Files {
+				if cp.Files[i] == f {
+					cp.Files[i] = &nf
+				}
+			}
+			w = &cp
+			break
+		}
+	}
 	// a JSON object with two keys that differ only in case ("description" and "Description"): encoding/json matches field
 	// names case-insensitively, so both feed one field and the LAST one wins - key order becomes meaningful (known finding
 	// KF-C12-1; the perturbation label says so)
